@@ -603,7 +603,7 @@ var Prop = &harness.Prop{
 			}
 		}
 		u = append(u, serverHelloSweepUnit(true), serverHelloSweepUnit(false))
-		u = append(u, suiteVersionUnit())
+		u = append(u, suiteVersionUnit(), versionRangeUnit())
 		u = append(u, refUnits()...)
 		u = append(u, renegUnits()...)
 		return u
@@ -678,4 +678,78 @@ func clipB(b []byte, n int) []byte {
 		return b[:n]
 	}
 	return b
+}
+
+// versionRangeUnit: the version range of the Config that is in force - given directly, or returned by
+// GetConfigForClient while the Config handed to Server() says something else - against a ClientHello
+// of every version: a ServerHello is sent only for a version inside the range, and it carries the
+// highest version both sides support.
+func versionRangeUnit() harness.Unit {
+	return harness.Unit{Name: "clienthello-version-range", Run: func(c *harness.Ctx) {
+		p := tlsk.Get()
+		ranges := [][2]uint16{{0, 0}, {0x0301, 0}, {0x0302, 0}, {0x0303, 0}, {0, 0x0301}, {0, 0x0302}, {0x0302, 0x0302}, {0x0301, 0x0302}}
+		hows := []string{"set on the Config given to Server()", "set on the Config returned by GetConfigForClient (outer Config: defaults)", "set on the Config returned by GetConfigForClient (outer Config: TLS 1.2 only)", "set on the Config returned by GetConfigForClient (outer Config: TLS 1.0 only)"}
+		for _, rg := range ranges {
+			for hi, how := range hows {
+				for _, v := range []uint16{0x0300, 0x0301, 0x0302, 0x0303, 0x0304} {
+					inner := &gmtls.Config{Certificates: []gmtls.Certificate{p.RSA}, Time: tlsk.FixedTime, Rand: wire.NewRand(5), MinVersion: rg[0], MaxVersion: rg[1]}
+					scfg := inner
+					switch hi {
+					case 1, 2, 3:
+						scfg = &gmtls.Config{Certificates: []gmtls.Certificate{p.RSA}, Time: tlsk.FixedTime, Rand: wire.NewRand(5), GetConfigForClient: func(*gmtls.ClientHelloInfo) (*gmtls.Config, error) { return inner, nil }}
+						if hi == 2 {
+							scfg.MinVersion, scfg.MaxVersion = 0x0303, 0x0303
+						}
+						if hi == 3 {
+							scfg.MinVersion, scfg.MaxVersion = 0x0301, 0x0301
+						}
+					}
+					hello := buildClientHello(v, []uint16{0x002f}, []byte{0}, true)
+					var cv, sv tlsk.View
+					o := tlsk.Run(rawPeer(wire.Frame(0x0301, 22, hello), &cv), tlsk.GMEnd(scfg, false, app[1], &sv, nil), &cv, &sv, nil)
+					tag := fmt.Sprintf("TLS server, MinVersion=%04x MaxVersion=%04x %s; ClientHello version %04x", rg[0], rg[1], how, v)
+					c.Add("executions", 1)
+					c.Add("transitions", 1)
+					c.DistinctS("states", tag)
+					if o.S.Panic != nil {
+						c.Violate(fmt.Sprintf("panic:server:%s", site(o.S.Stack)), fmt.Sprintf("[%s] server panicked: %v\n%s", tag, o.S.Panic, clip(o.S.Stack, 1200)), nil, tag)
+						continue
+					}
+					if len(o.Stuck) > 0 {
+						c.Violate("hang:clienthello", fmt.Sprintf("[%s] server keeps waiting after the peer closed: %v", tag, o.Stuck), nil, tag)
+						continue
+					}
+					if o.S.Complete || o.S.HandshakeErr == nil {
+						c.Violate("completes-after:clienthello-only", fmt.Sprintf("[%s] the server reports completion although the peer sent only a ClientHello", tag), nil, tag)
+					}
+					answered := len(cv.Read) >= 11 && cv.Read[0] == 22 && cv.Read[5] == 2
+					max := rg[1]
+					if max == 0 {
+						max = 0x0303
+					}
+					want := v
+					if want > max {
+						want = max
+					}
+					inRange := want >= rg[0] || rg[0] == 0
+					c.DistinctS("outcomes", fmt.Sprintf("%v/%v", answered, inRange))
+					if rg[0] == 0 && want < 0x0301 {
+						continue // what the default minimum is (SSL 3.0 is answered by this library) is not judged
+					}
+					if answered && !inRange {
+						c.Violate(fmt.Sprintf("serverhello-outside-version-range:%04x-%04x:how%d:%04x", rg[0], rg[1], hi, v), fmt.Sprintf("[%s] the server answered with a ServerHello although no version of its range is offered", tag), nil, tag)
+					}
+					if answered && inRange {
+						if got := uint16(cv.Read[9])<<8 | uint16(cv.Read[10]); got != want {
+							c.Violate(fmt.Sprintf("serverhello-version:%04x-%04x:how%d:%04x", rg[0], rg[1], hi, v), fmt.Sprintf("[%s] ServerHello carries version %04x, the highest version both support is %04x", tag, got, want), nil, tag)
+						}
+					}
+					if !answered && inRange {
+						c.Violate(fmt.Sprintf("version-in-range-refused:%04x-%04x:how%d:%04x", rg[0], rg[1], hi, v), fmt.Sprintf("[%s] no ServerHello although the version is inside the range", tag), nil, tag)
+					}
+				}
+			}
+		}
+		c.Sample("8 version ranges x 4 ways they are in force (directly; behind GetConfigForClient with three different outer Configs) x ClientHello versions 0300..0304")
+	}}
 }
